@@ -2,3 +2,6 @@
 // so that a semantically different rewrite is refuted instead of ending in "not supported" (exit 2).
 pub assume_specification<T> [bool::then_some] (b: bool, t: T) -> (r: Option<T>)
     ensures r == (if b { Some(t) } else { None::<T> });
+// signed-offset helpers a refactoring of the address arithmetic may reach for (std's documented results)
+pub assume_specification [u16::saturating_add_signed] (a: u16, b: i16) -> (r: u16)
+    ensures r as int == (if a + b < 0 { 0int } else if a + b > 0xFFFF { 0xFFFFint } else { a + b });
